@@ -95,6 +95,7 @@ package core
 //@   modifies core.scanner, scanner.nextMod(core.scanner),
 //@            fields(core.scannersStack), core.scannersStack.stack[:], core.scannersStack.hashes[:], core.scannersStack.uniqueFiles[:]
 //@   ensures imp(result == nil, coreScanInv(core))
+//@   ensures core.scanner != nil
 //@   ensures[C09,@include-keeps-pending] core.currentDirective == old(core.currentDirective) && core.currentContextDirective == old(core.currentContextDirective)
 //@   ensures[C19,@ban-checked] imp(banned(core, directive.Include), result != nil && result.File == keyword.file && result.Index == keyword.begin)
 //@   ensures scanner.itemsOK(core.scannersStack)
@@ -203,6 +204,8 @@ package core
 //@   modifies anything
 //@   ensures imp(result == nil, coreScanInv(core))
 //@   ensures core.scannersStack == old(core.scannersStack) && core.scannersStack != nil && scanner.itemsOK(core.scannersStack)
+// (scanProject reads the file of the active scanner when an error leaves the scanning phase)
+//@   ensures core.scanner != nil
 //@ func (*JApiCore).drainCurrentScanner loop 1
 //@   invariant coreScanInv(core) && core.scannersStack == old(core.scannersStack)
 
